@@ -66,9 +66,9 @@ class ReadOnlyHistories(Contract):
     has_native = True
     native_shards = 4
     props = ("C10",)
-    bounded_scope = ("a 5-entity project (plus a drillhole group with one hole and a depth log when the sequence touches drillholes) opened with mode 'r'; sequences of 3-8 calls over getters, setters (on entities and on entity types, the root's included), creations, removals (through the workspace and through the parent, also repeated with a handle kept from an earlier attempt or session), copies, property-group edits, close/re-open "
+    bounded_scope = ("a 5-entity project (plus a drillhole group with one hole and a depth log when the sequence touches drillholes) opened with mode 'r'; sequences of 3-8 calls over getters, setters (on entities and on entity types, the root's included), creations, removals (through the workspace and through the parent, also repeated with a handle kept from an earlier attempt or session), copies, property-group edits and creations, data and objects given another parent, close/re-open "
                      "(with and without an explicit mode) and fetch_active_workspace: after every call the file's sha256 is unchanged, an open handle reports mode 'r', and every "
-                     "call that has to write raised; 18 fixed + 40 seeded sequences (quick) / 600 (thorough); plus the ui.json loader and monitoring-directory helpers on ordinary "
+                     "call that has to write raised; 21 fixed + 40 seeded sequences (quick) / 600 (thorough); plus the ui.json loader and monitoring-directory helpers on ordinary "
                      "and root-less files")
 
     FIXED = [
@@ -90,6 +90,9 @@ class ReadOnlyHistories(Contract):
         [("hole_add_data", 0), ("hole_add_empty_channel", 0), ("hole_rename", 0), ("hole_values", 0)],
         [("hole_add_empty_channel", 0), ("close_open", 0), ("hole_data_flag", 0), ("hole_surveys", 0), ("hole_remove_data", 0), ("hole_add_empty_channel", 0)],
         [("remove_child", 1), ("close_open", 0), ("remove_child_held", 1), ("remove_child", 1), ("remove_child_held", 1)],
+        [("move_data", 0), ("move_data", 1), ("move_data_to_group", 0), ("move_object", 0), ("close_open", 0), ("move_data", 0)],
+        [("pg_create", 0), ("pg_create_with_members", 0), ("pg_create", 0), ("close_open", 0), ("pg_create_with_members", 1), ("pg_create", 1)],
+        [("values", 0), ("move_data", 0), ("pg_create", 0), ("move_object", 1), ("pg_create_with_members", 1)],
     ]
 
     def native_cases(self, tier, rng):
@@ -216,6 +219,29 @@ class ReadOnlyHistories(Contract):
                                 o.remove_children([kid])
                         elif op == "copy_same":
                             o.copy()
+                        elif op in ("move_data", "move_data_to_group"):
+                            # a stored data is given another parent (another stored object / a stored group or the root)
+                            kids = [c for c in o.children if hasattr(c, "values") and c.uid in stored]
+                            homes = [x for x in objs if x is not o] if op == "move_data" else [g for g in ws.groups if g.uid in stored]
+                            if kids and homes:
+                                kids[0].parent = homes[a % len(homes)]
+                            else:
+                                wrote = None
+                        elif op == "move_object":
+                            homes = [g for g in ws.groups if g.uid in stored and g is not o.parent]
+                            if homes:
+                                o.parent = homes[a % len(homes)]
+                            else:
+                                wrote = None
+                        elif op in ("pg_create", "pg_create_with_members"):
+                            # a property group that does not exist yet is created on a stored object
+                            kids = [c for c in o.children if hasattr(c, "values") and c.uid in stored]
+                            if op == "pg_create":
+                                o.find_or_create_property_group(name=f"fresh-{step}")
+                            elif kids:
+                                o.create_property_group(name=f"fresh-{step}", properties=[kids[0].uid])
+                            else:
+                                wrote = None
                         elif op == "pg_add":
                             kids = [c for c in o.children if hasattr(c, "values") and c.uid in stored]
                             if kids:
@@ -338,9 +364,9 @@ class CloseHistories(Contract):
     native_shards = 4
     props = ("C11",)
     bounded_scope = ("a project with plain objects and a drillhole group; 2-6 operations (create, add data, rename, edit values, remove, drillhole data, renames and data-flag edits whose persistence "
-                     "is deferred to close, a redundant open(), fetch_active_workspace in either mode) followed by one of {explicit close, leaving the with-block, an exception "
+                     "is deferred to close, a chain group -> group -> points created with save_on_creation=False, a redundant open(), fetch_active_workspace in either mode) followed by one of {explicit close, leaving the with-block, an exception "
                      "escaping the with-block after k operations}; on disk and in an in-memory buffer saved with save_as: the file is valid, its re-opened tree equals the live tree "
-                     "at the time of the close, the handle is released, a call needing the file raises the closed-file error, re-opening works; 20 fixed (five of them on a file whose Root link -- and for two also the root group's node -- was deleted, so that the session works on the rebuilt tree) + 30 seeded (quick) / 400")
+                     "at the time of the close, the handle is released, a call needing the file raises the closed-file error, re-opening works; 24 fixed (five of them on a file whose Root link -- and for two also the root group's node -- was deleted, so that the session works on the rebuilt tree) + 30 seeded (quick) / 400")
 
     FIXED = [
         (["points", "data", "rename"], "close", "disk"),
@@ -363,6 +389,10 @@ class CloseHistories(Contract):
         (["rename", "hole_rename"], "exception", "rootless"),
         (["rename", "values"], "close", "rootless-no-root-group"),
         (["points", "rename", "data", "hole_rename"], "with", "rootless-no-root-group"),
+        (["deferred_chain", "rename"], "close", "disk"),
+        (["points", "deferred_chain"], "with", "disk"),
+        (["deferred_chain", "hole_rename"], "exception", "disk"),
+        (["deferred_chain"], "close", "memory"),
     ]
 
     def native_cases(self, tier, rng):
@@ -460,6 +490,14 @@ class CloseHistories(Contract):
                     kids[0].values = np.asarray(kids[0].values, dtype=float) + 1
             elif op == "remove" and len(objs) > 1:
                 ws.remove_entity(objs[-1])
+            elif op == "deferred_chain":
+                # entities whose first save is left to the close, three levels below the root: group -> group -> points (-> data)
+                from geoh5py.groups import ContainerGroup
+
+                outer = ws.create_entity(ContainerGroup, save_on_creation=False, entity={"name": f"outer{k}"})
+                inner = ws.create_entity(ContainerGroup, save_on_creation=False, entity={"name": f"inner{k}", "parent": outer})
+                pts = ws.create_entity(Points, save_on_creation=False, entity={"name": f"deep{k}", "parent": inner, "vertices": np.arange(6.0).reshape(2, 3) + k})
+                kept.append(pts)
             elif op == "hole_data" and holes:
                 holes[k % len(holes)].add_data({f"log{k}": {"depth": np.array([1.0, 2.0, 3.0]), "values": np.arange(3.0) + 10 * k}})
             elif op == "hole_rename" and holes:
